@@ -82,20 +82,20 @@ func intact(b []byte, t uint64) bool {
 
 func TestVerifC18(t *testing.T) {
 	rep := vk.NewReport("C18",
-		"a case is one run: a fresh Stor (heap storage or a storage whose chunk mapping yields) with chunk size 64..4096, 2-16 goroutines each making its share of "+
-			"the run's 24000 allocations (or until 512 KiB are used) (sizes 1..chunk: small, chunk fractions, exactly/one more/one less than the remainder of the current chunk, the whole chunk; in a third of the runs almost all sizes exceed half a chunk so that every allocation needs a new chunk), "+
-			"with random yields, under GOMAXPROCS 1..16. Non-trivial = at least 2 goroutines got allocations in the same chunk and at least 10 chunk boundaries were crossed. "+
+		"a case is one run: a fresh Stor (heap storage or a storage whose chunk mapping yields) with chunk size 64..4096, 2-32 goroutines each making its share of "+
+			"the run's 8000 allocations (or until 256 KiB are used) (sizes 1..chunk: small, chunk fractions, exactly/one more/one less than the remainder of the current chunk, the whole chunk; in a third of the runs almost all sizes exceed half a chunk so that every allocation needs a new chunk), "+
+			"with random yields (a third of the runs instead run nothing but Alloc in the loop and check afterwards), under GOMAXPROCS 1..64 (more than the cores, so that the OS preempts allocators at arbitrary points). Non-trivial = at least 2 goroutines got allocations in the same chunk and at least 10 chunk boundaries were crossed. "+
 			"Distinct by (chunk size, goroutines, storage kind, hash of the sorted allocation table)",
 		"every allocation that returned is recorded by the goroutine that made it; the judgement is made after all goroutines have finished",
 		"a panic out of Alloc (e.g. 'too many retries') is the loud failure the statement allows: counted, not a violation")
 	defer rep.Finish()
-	runs := vk.N(160, 16000)
-	perRun := 24000         // allocations per run, or
-	const volume = 512 << 10 // bytes of storage per run, whichever comes first (race-build memory is slow)
+	runs := vk.N(400, 24000)
+	perRun := 8000          // allocations per run, or
+	const volume = 256 << 10 // bytes of storage per run, whichever comes first (race-build memory is slow)
 	oldProcs := runtime.GOMAXPROCS(0)
 	defer runtime.GOMAXPROCS(oldProcs)
 	// buffers are reused between runs: touching fresh memory is what is slow in a race build
-	bufs := make([][]rec, 16)
+	bufs := make([][]rec, 32)
 	for i := range bufs {
 		bufs[i] = make([]rec, 0, perRun/2)
 	}
@@ -106,10 +106,11 @@ func TestVerifC18(t *testing.T) {
 		r := vk.RandFor(18, run)
 		cs := chunkSizes[r.IntN(len(chunkSizes))]
 		ng := 2 + r.IntN(15)
-		procs := []int{1, 2, 2, 3, 4, 4, 8, 8, 16, 16}[r.IntN(10)]
-		if procs > oldProcs {
-			procs = oldProcs
+		if r.IntN(4) == 0 {
+			ng = 17 + r.IntN(16)
 		}
+		// more Ps than cores is deliberate: the OS then preempts allocating threads at arbitrary instructions
+		procs := []int{1, 2, 3, 4, 8, 8, 16, 16, 32, 64}[r.IntN(10)]
 		runtime.GOMAXPROCS(procs)
 		kind := "heap"
 		var st *stor.Stor
@@ -125,6 +126,10 @@ func TestVerifC18(t *testing.T) {
 		storm := r.IntN(3) == 0 // every allocation is larger than half a chunk: each one needs a new chunk
 		if storm {
 			kind += "+storm"
+		}
+		tight := r.IntN(3) == 0
+		if tight {
+			kind += "+tight"
 		}
 		rep.Case("run %d seed=%d shard=%d chunk=%d goroutines=%d procs=%d kind=%s yield=%d", run, vk.Seed(), vk.Shard(), cs, ng, procs, kind, yieldEvery)
 		key := fmt.Sprintf("seed=%d shard=%d/%d run=%d chunk=%d goroutines=%d procs=%d kind=%s", vk.Seed(), vk.Shard(), vk.NShards(), run, cs, ng, procs, kind)
@@ -145,8 +150,67 @@ func TestVerifC18(t *testing.T) {
 				k := perRun / ng
 				mine := bufs[g][:0]
 				<-start
-				// spin barrier: begin only when every goroutine is actually running (or has been scheduled once),
-				// otherwise the first ones finish before the last ones wake up
+				// (spin barrier below: begin only when every goroutine is actually running or has been scheduled once,
+				// otherwise the first ones finish before the last ones wake up)
+				if tight {
+					// nothing but Alloc in the loop, so that most of each thread's time is inside Alloc:
+					// sizes are drawn beforehand, results are checked and filled afterwards
+					sizes := make([]int, k)
+					for i := range sizes {
+						switch c := lr.IntN(20); {
+						case storm && c < 18:
+							sizes[i] = cs/2 + 1 + lr.IntN(cs/2)
+						case c < 12:
+							sizes[i] = 1 + lr.IntN(min(32, cs))
+						case c < 16:
+							sizes[i] = 1 + lr.IntN(max(1, cs/4))
+						case c < 19:
+							sizes[i] = 1 + lr.IntN(cs)
+						default:
+							sizes[i] = cs
+						}
+					}
+					arrived.Add(1)
+					for i := 0; arrived.Load() < int64(ng) && i < 100000; i++ {
+						runtime.Gosched()
+					}
+					seq, stop := 0, false
+					for seq < k && !stop {
+						p, _ := vk.Catch(func() {
+							for ; seq < k; seq++ {
+								if seq&31 == 0 && st.Size() >= volume {
+									stop = true
+									return
+								}
+								off, b := st.Alloc(sizes[seq])
+								mine = append(mine, rec{off, sizes[seq], g, seq, b})
+							}
+						})
+						if p != nil {
+							if strings.Contains(fmt.Sprint(p), "too many retries") {
+								retryPanics.Add(1)
+							} else {
+								otherPanics.Add(1)
+								otherPanicMsg.Store(fmt.Sprint(p))
+							}
+							seq++
+						}
+					}
+					size := st.Size()
+					for i := range mine {
+						m := &mine[i]
+						if len(m.b) != m.n || cap(m.b) != m.n {
+							rep.Violate("C18/slice-len-cap-wrong", key, map[string]any{"n": m.n, "len": len(m.b), "cap": cap(m.b), "off": m.off})
+						}
+						if m.off+uint64(m.n) > size {
+							rep.Violate("C18/beyond-size", key, map[string]any{"off": m.off, "n": m.n, "size_after": size})
+						}
+						fill(m.b, tag(g, m.seq))
+					}
+					recs[g] = mine
+					bufs[g] = mine
+					return
+				}
 				arrived.Add(1)
 				for i := 0; arrived.Load() < int64(ng) && i < 100000; i++ {
 					runtime.Gosched()
